@@ -50,6 +50,7 @@ func (w *world) buildChain(c chainCase) (fsx.Res, error) {
 	}
 
 	w.links = nil
+	w.setMove("")
 	w.mode = 0
 
 	if err := w.buildK(); err != nil {
